@@ -52,7 +52,8 @@ def main():
         all20 = [f"C{i:02d}" for i in range(1, 21)]
         for pid in (all20 if checks == "all" else checks.split(",") if checks else [meta["breaks"]]):
             for sd in seeds: jobs.put((sid, pid, sd))
-    ws = [A.setup_worker(40 + k) for k in range(workers)]
+    base_w = 100 + (os.getpid() % 50) * 16          # two concurrent invocations never share a worker
+    ws = [A.setup_worker(base_w + k) for k in range(workers)]
     lock = threading.Lock()
     def work(k):
         repo, verif = ws[k]
